@@ -64,6 +64,7 @@ let parse_item s =
   | 'D' -> IDecl (parse_ent body)
   | 'A' -> IUseAll (num body)
   | 'N' -> (match split_on ':' body with [p; d] -> IUseName (num p, num d) | _ -> fail "bad N")
+  | 'K' -> IUseCtx (num body)
   | 'S' -> (match split_on ':' body with
             | [i; d; u] -> ISite { sid = num i; sdes = num d; suse = parse_usage u }
             | _ -> fail "bad S")
@@ -75,7 +76,7 @@ let parse_items s = Stdlib.List.filter_map (fun x -> if x = "" then None else So
 let parse_unit s =
   match split_on ',' s with
   | i :: k :: ctx :: body :: _ ->
-    let kd = if k = "P" || k = "E" then UPrimary else USecondary (num (Stdlib.String.sub k 1 (Stdlib.String.length k - 1))) in
+    let kd = if k = "P" || k = "E" || k = "C" then UPrimary else USecondary (num (Stdlib.String.sub k 1 (Stdlib.String.length k - 1))) in
     { uid = num i; ukd = kd; uctx = parse_items ctx; ubody = parse_items body }
   | _ -> fail ("bad unit: " ^ s)
 let parse_program s = Stdlib.List.map parse_unit (split_on '|' s)
